@@ -179,6 +179,13 @@ theorem stepRel_RD (now : Int) : StepRel now (fun t => t ≠ 0) (fun d => 0 < d.
     intro d _ hr _ _
     exact rd_same hr rfl (fun _ h => h) (Nat.le_refl _) id (doneP_congr rfl rfl rfl rfl rfl)
 
+theorem rd_setq (now : Int) (b : Bool) (d : Dt) : RD now d (setQuiet b d) := by
+  have h := setQuiet_eq b d
+  refine ⟨h.1, fun c hc => by rw [h.2.2.2.2.2.2.2.2.1]; exact hc,
+    by rw [h.2.2.2.2.2.2.2.2.2.2.2.2.2.1]; exact Nat.le_refl _, h.2.2.2.2.2.2.2.2.2.2.2.2.2.2.2.2,
+    fun he => by rw [h.2.2.2.2.2.2.2.1]; exact he,
+    fun _ => doneP_congr h.2.2.2.1 h.2.2.2.2.1 h.2.2.2.2.2.1 h.2.2.2.2.2.2.1 h.2.2.1, h.2.2.2.1⟩
+
 /-! ### Closure under the cascade -/
 
 /-- Every downtime whose guard was passed between `l` and `l'` (its OnDowntimeTriggered count grew) has
@@ -562,6 +569,11 @@ theorem step_cascade (st : St) (op : Op) (hw : WFL st.dts) (hl : 0 < st.lastStat
       have c12 := closed_comp h1.1 h2.1 b1 h2.2.1 h1.2.1
       exact ⟨closed_comp c12 h3.1 (both_trans sr.trans b1 h2.2.1) b3 h2.2.2.1, h3.2⟩
     · exact h1
+  | setPaused b now =>
+    simp only [preModel, step, setPausedOp]
+    exact step_map_same (now := now) (setQuiet b) st.dts
+      (fun d => ⟨(setQuiet_eq b d).1, (setQuiet_eq b d).2.2.2.2.2.2.2.2.1, (setQuiet_eq b d).2.2.2.2.2.2.2.2.2.2.2.2.2.1⟩)
+      (both_map _ _ (fun d _ => rd_setq now b d)) hw
   | add p now =>
     simp only [preModel, step, addOp]
     split
@@ -699,7 +711,7 @@ def LinkInv (l : List Dt) : Prop :=
 theorem link_step (st : St) (op : Op) (hnd : (idsOf st.dts).Nodup) (he : AllC (fun d => 0 < d.entry) st.dts)
     (hl : 0 < st.lastStateChange) (hnow : 0 < op.now) (hop : opOK op) (hi : LinkInv st.dts) :
     LinkInv (step st op).1.dts := by
-  have hpm := pw_step st op (stepRel_RM op.now) (fun a b r => r.1) hnd
+  have hpm := pw_stepRM st op hnd
   -- RD along the operation
   have hopT : OpT st (fun t => t ≠ 0) (fun d => 0 < d.entry) op := by
     cases op with
@@ -710,6 +722,7 @@ theorem link_step (st : St) (op : Op) (hnd : (idsOf st.dts).Nodup) (he : AllC (f
     | result s te now => have := hop.1; show te ≠ 0; omega
     | pump now => trivial
     | remove id u now => trivial
+    | setPaused b now => trivial
   intro x' hx' htb
   -- predecessor of x'
   obtain ⟨x, hx, rx⟩ : ∃ x ∈ preModel st op, RM x x' := by
@@ -727,7 +740,8 @@ theorem link_step (st : St) (op : Op) (hnd : (idsOf st.dts).Nodup) (he : AllC (f
   have hxtb : x.trigBy = x'.trigBy := rx.2.2.2.2.2.2.1.symm
   by_cases hxs : x ∈ st.dts
   · obtain ⟨q, hq, hqid, hqt⟩ := hi x hxs (by rw [hxtb]; exact htb)
-    obtain ⟨q', hq', rq⟩ := step_succ st op (stepRel_RD op.now) he hopT q hq
+    obtain ⟨q', hq', rq⟩ := step_succ st op (stepRel_RD op.now) he hopT
+      (fun b _ _ d _ => rd_setq op.now b d) q hq
     exact ⟨q', hq', by rw [rq.1, hqid, hxtb], by rw [rx.1]; exact rq.2.1 _ hqt⟩
   · -- x is the downtime just created
     cases op with
@@ -776,6 +790,7 @@ theorem link_step (st : St) (op : Op) (hnd : (idsOf st.dts).Nodup) (he : AllC (f
     | result s te now => exact absurd hx hxs
     | pump now => exact absurd hx hxs
     | remove id u now => exact absurd hx hxs
+    | setPaused b now => exact absurd hx hxs
 
 /-! ### The `trigger_cascade` clause on the model's trace -/
 
@@ -799,6 +814,7 @@ theorem mem_preModel (st : St) (op : Op) {d : Dt} (h : d ∈ st.dts) : d ∈ pre
   | result s te now => exact h
   | pump now => exact h
   | remove id u now => exact h
+  | setPaused b now => exact h
 
 /-- An untriggered downtime inside its trigger window that is not over can be triggered. -/
 theorem can_of_window {now : Int} {d : Dt} (h0 : d.trigger = 0) (h1 : d.start ≤ now)
@@ -845,7 +861,7 @@ theorem chkCascade_model (sp : SpecSt) (st : St) (op : Op) (hrel : RelS sp st) (
           rw [evCount_obsOf _ _ _ _ _ _ (Or.inr (Or.inr (Or.inl rfl))), sum_ite_none _ _ _ hm] at hev
           omega
       obtain ⟨q', hq', hq'id⟩ := List.mem_map.mp hmem
-      have hpw := pw_step st op (stepRel_RM op.now) (fun a b r => r.1) hnd
+      have hpw := pw_stepRM st op hnd
       obtain ⟨q, hq, rq⟩ := mem_of_pw_right hpw hq'
       have hqlt : q.trigEv < q'.trigEv := by
         have h3 : evCount (stepObs st op).2 3 q.id = q'.trigEv - q.trigEv :=
@@ -872,6 +888,7 @@ theorem chkCascade_model (sp : SpecSt) (st : St) (op : Op) (hrel : RelS sp st) (
         | result s te now => exact hx
         | pump now => exact hx
         | remove id u now => exact hx
+        | setPaused b now => exact hx
       have hxtb : x.trigBy = sd.trigBy := by rw [v.2.2.2.2.2.1, rx.2.2.2.2.2.2.1]
       obtain ⟨q0, hq0, hq0id, hq0t⟩ := hlink x hxs (by rw [hxtb]; exact htb)
       have hq0q : q0 = q := eq_of_id (nodup_preModel st op hnd) (mem_preModel st op hq0) hq
